@@ -47,6 +47,15 @@ def monitor(tr):
             g, entries, rows = f[1], f[4].split(","), reply["rows"]
         elif kind == "race" and reply.get("kind") == "race" and reply["commit"].get("kind") == "commit":
             g, entries, rows = f[1], f[4].split(","), reply["commit"]["rows"]
+        if kind == "par" and reply.get("kind") == "par":
+            # commits inside a two-request op (histories of the shared corpus): applied in the order the harness reports
+            for side in (("a", "b") if reply.get("order") == "seq" else ("b", "a")):
+                w, o = st[side + "_f"], reply[side]
+                if w and w[0] == "commit" and o.get("kind") == "commit" and len(w) > 4 and len(o["rows"]) == len(w[4].split(",")):
+                    for e, (k, code) in zip(w[4].split(","), o["rows"]):
+                        t, p, off, md = e.split(":")
+                        if code == 0 and k == "%s:%s" % (t, p):
+                            spec["%s:%s:%s" % (w[1], t, p)] = "%s/%s" % (off, md)
         if len(rows) != len(entries):
             if entries:
                 out.append((i, "commit-reply-shape", "commit of %d partitions answered %d rows" % (len(entries), len(rows))))
